@@ -32,6 +32,9 @@ def run(ctx):
     ctx.each(r03b, ctx, repo)
     ctx.each(r03c, ctx, repo)
     ctx.each(r03d, ctx, repo)
+    from . import c15 as _c15
+
+    ctx.each(_c15.r15a, ctx, repo)  # a run ends at the requested end year: functions that shorten sim_end temporarily restore it on every path
     ctx.each(r03f, ctx, repo)
     ctx.each(discretise.snap_tolerance_rule, ctx, repo, "R03e", [("project", "_n_steps")])
 
